@@ -18,7 +18,7 @@ func init() {
 			"The cache's iterators over the table yield only alive entries that are unexpired at a clock sample taken inside the iteration (C03.filter: nothing that expired before the iteration began). "+
 			"NOT decided: linearizability and weak consistency of iteration over all schedules; hash-collision behaviour.",
 		[]string{"sync.Mutex / sync/atomic semantics", "node Key() is immutable (C02.immut)"},
-		ruleC15Once, ruleC15RMW, ruleC15Recheck, ruleC15LockPair, ruleC15Publish, ruleC15Current, ruleC15KeyCheck, ruleC15Atomic, ruleC15MetaOrder, ruleC15Size, ruleC15Range, ruleC15CopyAll, ruleC15CopyLock, ruleC03Filter, ruleC15Scan, ruleIterContinue, ruleC15Swar, ruleC15HashIdx, ruleC18Hash, ruleC15SizeCopy)
+		ruleC15Once, ruleC15RMW, ruleC15Recheck, ruleC15LockPair, ruleC15Publish, ruleC15Current, ruleC15KeyCheck, ruleC15Atomic, ruleC15MetaOrder, ruleC15Size, ruleC15Range, ruleC15CopyAll, ruleC15CopyLock, ruleC03Filter, ruleC15Scan, ruleIterContinue, ruleC15Swar, ruleC15HashIdx, ruleC18Hash, ruleC15SizeCopy, ruleC15SrcReadOnly)
 }
 
 const hmPkg = "internal/hashmap"
